@@ -9,6 +9,7 @@ PROPS = {
     'C01': {
         'level': 'proof',
         'kani': True,
+        'native': True,
         'explanation': 'AsmLine::emit / bit_offs / ImmediateOrReg::bits / Flag::bits are proved equal to the ISA encoding '
                        'specification enc_spec for every statement kind, register, line and label line (Verus on the extracted '
                        'real text). Parser operand order, line numbering and backpatching are proved on a token-stream stand-in. '
@@ -118,10 +119,13 @@ PROPS = {
     'C05': {
         'level': 'proof',
         'kani': False,
+        'native': True,
         'explanation': 'Totality of the parser/AIR layer as implicit obligations of every function under contract in U-PARSE/U-AIR/U-SYM: no arithmetic '
                        'overflow (line counter, literal offsets, span arithmetic, bit_offs), no out-of-bounds index, every panic!/unreachable!/assert! '
                        'unreachable or true (incl. Display of unexpected tokens via the displayable() precondition), termination of parse '
-                       '(decreases: tokens left). The text layer (lexer, preprocess, error slicing, miette rendering) is outside Verus reach: NOT decided here.',
+                       '(decreases: tokens left). The text layer (lexer, preprocess, error slicing, miette rendering) is outside Verus reach and CBMC timed '
+                       'out on it: BOUNDED native enumeration stands in (tokenising every string <= 4 chars over 17 characters incl. multi-byte; '
+                       'assembling every sequence of <= 4 source fragments over 19 incl. directives as operands: image or rendered diagnostic, no panic).',
         'assumptions': ['preprocess hands the parser a stream without whitespace/comment/eof tokens whose only directive is .orig (pstream_ok) — '
                         'assumed, text layer not deductively verified', 'diagnostic rendering not modelled (R5)'],
     },
@@ -171,11 +175,41 @@ PROPS = {
                        'with_symbol_table. The history-level statement is argued from these, not machine-checked.',
         'assumptions': ['lexer not extracted (covered by the scan only)', 'the watch closure in main() that must call reset_state is outside reach'],
     },
+    'C14': {
+        'level': 'model_checking',
+        'kani': True,
+        'native': True,
+        'engine': 'kani+native',
+        'technique': 'Kani/CBMC harnesses injected into the real crate: complete (loop-free, full-domain) for conversions/decoder, bounded for string parsing',
+        'explanation': 'Complete (full domain, loop-free): Integer::as_i16/as_u16/as_u16_cast over all i32, Radix::parse_digit over all chars x radices, '
+                       'read_char_from_bytes over every byte sequence of at most 4 bytes (never panics; decodes exactly what it consumed). Bounded: '
+                       'parse_integer against an executable reference grammar (int_ref) on all strings <= 4 characters over the property\'s alphabet and '
+                       'on signed 9-10 digit decimals across the i32 boundary. BOUNDED native enumeration (CBMC timed out on these): parse_integer on all '
+                       'strings <= 5 chars over 17 characters vs the reference grammar; Command::try_from on 40 command words x <= 3 arguments over 24 '
+                       'spellings (no panic, name case-insensitive, 11 documented meanings exact); Argument::read splitting on all strings <= 7 chars. '
+                       'The stdin transport loop is not covered.',
+        'assumptions': ['bounded parts are bounded model checking, not proof (bounds stated per harness in coverage.functions_bounded_only)',
+                        'Stdin::read I/O loop and --command vs stdin transport equivalence: not decided'],
+    },
+    'C20': {
+        'level': 'model_checking',
+        'kani': True,
+        'native': True,
+        'engine': 'kani+native',
+        'technique': 'bounded checks of the real line-editor code: Kani/CBMC harness (count_chars_bytes) and exhaustive native enumeration against a reference editor',
+        'explanation': 'BOUNDED (never counted as proof; str/String code is outside Verus reach and CBMC timed out on it): every key sequence of '
+                       'length <= 5 over 14 keys (a, space, +, 2-byte and 4-byte characters, Backspace, Delete, Left, Right, Ctrl+Left/Right, Up, '
+                       'Down, Enter) from empty and non-empty history is executed on the real Terminal::handle_key: no panic, cursor inside the '
+                       'line after every key, history index in range, text submitted on Enter equal to a plain reference editor; word motions on '
+                       'every line <= 5 characters at every cursor; Kani: count_chars_bytes on 14 lines.',
+        'assumptions': ['bounded: sequences longer than 5 keys / other characters are not explored', 'terminal drawing, raw mode, history file: not decided',
+                        'the reference editor copies the cursor after Ctrl+Left/Right (their exact target is not specified, only its bounds)'],
+    },
 }
 
 NOT_APPLICABLE = {
     'C08': 'file-system effect ordering and exit status of a main() match arm under injected I/O faults: no function boundary, '
            'no returnable state and no contract language for file contents with the installed verifiers (DESIGN §5 C08)',
 }
-for _p in ['C14', 'C20']:
+for _p in []:
     NOT_APPLICABLE.setdefault(_p, 'check not built yet in this revision (planned, see DESIGN.md §5)')
